@@ -1189,6 +1189,9 @@ where
             // ClassIntersection :: ClassSetOperand && [lookahead ≠ &]
             ClassSetOperator::Intersection => {
                 loop {
+                    if self.peek() == Some(0x26 /* & */) {
+                        return error("Unexpected character in class set intersection");
+                    }
                     let operand = self.consume_class_set_operand()?;
                     result.intersect_operand(operand);
                     match self.next() {
@@ -1380,14 +1383,15 @@ where
                 }
             }
             // [lookahead ∉ ClassSetReservedDoublePunctuator] SourceCharacter but not ClassSetSyntaxCharacter
-            0x28 /* ( */ | 0x29 /* ) */ | 0x7B /* { */ | 0x7D /* } */ | 0x2F /* / */
-            | 0x2D /* - */ | 0x7C /* | */ => error("Invalid class set character"),
+            0x28 /* ( */ | 0x29 /* ) */ | 0x5B /* [ */ | 0x5D /* ] */ | 0x7B /* { */
+            | 0x7D /* } */ | 0x2F /* / */ | 0x2D /* - */ | 0x7C /* | */ => {
+                error("Invalid class set character")
+            }
             _ => {
-                if Self::is_class_set_reserved_double_punctuator(cp)
-                    && let Some(cp) = self.peek()
-                        && Self::is_class_set_reserved_double_punctuator(cp) {
-                            return error("Invalid class set character");
-                        }
+                // A reserved double punctuator is the same punctuator twice: `&&`, `!!`, ...
+                if Self::is_class_set_reserved_double_punctuator(cp) && self.peek() == Some(cp) {
+                    return error("Invalid class set character");
+                }
                 Ok(cp)
             }
         }
